@@ -311,6 +311,16 @@ class HistGen:
             insert_enc(d, p, v, rng.choice(["under", "nested", "mixed"]))
         return d
 
+    def valid_arg(self, st):
+        """update dictionary with valid names and values only (used to build a source style object)"""
+        d = {}
+        for _ in range(self.rng.choice([1, 2, 3])):
+            p, kind, _ = self.leaf(st)
+            ok, _ = pools(kind)
+            if ok:
+                insert_enc(d, p, self.rng.choice(ok), self.rng.choice(["under", "nested", "mixed"]))
+        return d
+
     def obj_base(self, st):
         """path of a sub-object (possibly the root)"""
         subs = [p for p, _ in subobjects(st)]
@@ -329,7 +339,12 @@ class HistGen:
         if x < 0.56:
             if cls == "MagpyMarkers":        # internal class without a style setter: plain update instead
                 return {"op": "upd", "def": False, "sub": [], "arg": self.arg(st)}
-            return {"op": "setstyle", "arg": self.arg(st)}
+            y = rng.random()
+            if y < 0.45:
+                return {"op": "setstyle", "arg": self.arg(st)}
+            if y < 0.9:
+                return {"op": "setstyleinst", "arg": self.valid_arg(st)}
+            return {"op": "setstylewrong"}
         if x < 0.68:
             fams = [f for f in class_families(cls) + ["base"] if f in dict(sub_struct(dst, ("display", "style"))[5])]
             if rng.random() < 0.8 and fams:
@@ -404,6 +419,13 @@ def impl_step(obj, op):
             setattr(getp(root, op["p"][:-1]), op["p"][-1], copy.deepcopy(op["v"]))
         elif k == "setstyle":
             obj.style = copy.deepcopy(op["arg"])
+        elif k == "setstyleinst":
+            src = make_obj(type(obj).__name__)
+            src.style.update(copy.deepcopy(op["arg"]))
+            obj.style = src.style
+            src.style.update(label="changed-after")      # must not reach obj (a copy was taken)
+        elif k == "setstylewrong":
+            obj.style = 5
         elif k == "reset":
             magpy.defaults.reset()
         elif k == "resolve":
@@ -464,6 +486,10 @@ def cop(op):
         return f"(OAsg {b(op['def'])} {cpath(op['p'])} {ctree(op['v'])})"
     if k == "setstyle":
         return f"(OSetStyle {cdict(op['arg'])})"
+    if k == "setstyleinst":
+        return f"(OSetStyleInst {cdict(op['arg'])})"
+    if k == "setstylewrong":
+        return "OSetStyleWrong"
     if k == "reset":
         return "OReset"
     return f"(OResolve {cdict(op['kw'])})"
